@@ -74,6 +74,13 @@ class ModelProperty(PropertyProtocol):
             else:
                 class_string = title
         class_info = Class.from_string(string=class_string, config=config)
+        if class_info.name in schemas.classes_by_name:
+            # Fail before anything is registered for this model: its inner classes and the dependency of its
+            # roots on this class name would otherwise outlive the error and remove the other schema's class
+            error = PropertyError(
+                data=data, detail=f'Attempted to generate duplicate models with name "{class_info.name}"'
+            )
+            return error, schemas
         model_roots = {*roots, class_info.name}
         required_properties: list[Property] | None = None
         optional_properties: list[Property] | None = None
